@@ -1,5 +1,6 @@
 import OpcuaVerif.Common
 import OpcuaVerif.Model.C12
+import OpcuaVerif.Model.C12Client
 import OpcuaVerif.Drv.C11
 
 namespace OpcuaVerif.C12
@@ -10,6 +11,7 @@ inductive DState where
   | srv (s : Option Srv)                 -- `none` until `open`
   | tx (st : C11.DState)
   | mw (c : Chan) (client : Bool) (s : MW)
+  | cli (s : Cli)
 
 def parseCI? (s : String) : Option (Option CI) :=
   if s = "bad" then some none else
@@ -28,8 +30,44 @@ def showV : VOut → String
 
 def srvTail (s : Srv) : String := s!"last={s.last} pend={s.pending.length}"
 
+def cliTail (s : Cli) : String :=
+  let ps := s.states.map fun p => s!"{p.1}:{p.2.length}"
+  s!"last={s.last} pend=[{",".intercalate ps}]"
+
+def showCOut : COut → String
+  | .ignored => "ok ignored"
+  | .stored => "ok stored"
+  | .dropped e => s!"ok dropped {e}"
+  | .aborted => "ok aborted"
+  | .completed r => s!"ok completed req={r}"
+  | .closedErr e => s!"err {e}"
+  | .closed => "err closed"
+  | .panic => "panic"
+
 def dstep (st : DState) (toks : List String) : DState × String :=
   match toks with
+  | ["reset", "cli", mp, ch] =>
+    match mp.toNat?, ch.toNat? with
+    | some mp, some ch => (.cli (Cli.init mp ch), "ok")
+    | _, _ => (st, "bad-op")
+  | ["req"] =>
+    match st with
+    | .cli s => match s.request with
+      | (s', id) => (.cli s', s!"ok id={id}")
+    | _ => (st, "bad-op")
+  | ["cchunk", ci, f] =>
+    match st, parseCI? ci with
+    | .cli s, some (some c) =>
+      let fin : Option Fin := if f = "F" then some .final else if f = "C" then some .intermediate
+        else if f = "A" then some .abort else none
+      match fin with
+      | none => (st, "bad-op")
+      | some fin =>
+        match s.chunk true c fin with
+        | (_, .panic) => (st, "panic")
+        | (s', .closed) => (.cli s', "err closed")
+        | (s', o) => (.cli s', showCOut o ++ " " ++ cliTail s')
+    | _, _ => (st, "bad-op")
   | ["reset", "srv"] => (.srv none, "ok")
   | "reset" :: "tx" :: _ =>
     match C11.dstep .idle toks with
